@@ -45,9 +45,9 @@ def _get_loaded(modname, cfg, patches=None):
     if "random_impl_factory" in kw:
         kw["random_impl"] = kw.pop("random_impl_factory")()
         return mod, loader.load(**kw)
-    if key not in _LOADED:
-        _LOADED[key] = loader.load(**kw)
-    return mod, _LOADED[key]
+    # a fresh copy of the repository's modules per work slice: module-level state written by the code under test (caches ...)
+    # must not leak from one exploration into another (loading takes a few tens of milliseconds)
+    return mod, loader.load(**kw)
 
 
 def _worker(args):
@@ -94,6 +94,7 @@ class Result(object):
         self.inconclusive = []
         self.cpu_s = 0.0
         self.per_job = {}
+        self.incomplete_jobs = []
 
 
 def explore_jobs(modname, cfgs, patches=None, deadline=None, stop_on_violation=True, slice_paths=40, slice_seconds=6.0,
@@ -163,6 +164,7 @@ def explore_jobs(modname, cfgs, patches=None, deadline=None, stop_on_violation=T
                 break
     finally:
         res.open_prefixes = len(pending) + len(inflight)
+        res.incomplete_jobs = sorted(set([ji for ji, _ in pending] + [ji for ji, _ in inflight]))
         pool.terminate()
         pool.join()
     return res
@@ -335,12 +337,18 @@ def main(modname):
                          % (r.get("why"), json.dumps(r.get("cex"), default=str)[:600], r.get("replay_detail")))
         for c in canary_fail:
             lines.append("HARNESS-ERROR: canary %s not detected/replayed: %s" % (c["name"], json.dumps(c, default=str)[:600]))
-    elif res.inconclusive or res.open_prefixes:
+    elif res.inconclusive or (res.open_prefixes and tier == "quick"):
         status, rc = "inconclusive", 2
         for r in res.inconclusive[:3]:
             lines.append("INCONCLUSIVE: %s (cfg %s)" % (r.get("why"), json.dumps(r.get("cfg"), default=str)[:200]))
         if res.open_prefixes:
             lines.append("INCONCLUSIVE: %d unexplored prefixes when the time budget of %ds ended" % (res.open_prefixes, budget_s))
+    elif res.open_prefixes:
+        # thorough tier only: the time budget ended before every exploration was exhausted.  Nothing is claimed for the
+        # unfinished explorations (listed in the evidence, exhaustive = false); the finished ones held.
+        status = "held-partial"
+        lines.append("PARTIAL: time budget of %ds ended with %d unexplored prefixes in %d of %d explorations; those bounds are NOT claimed "
+                     "(see coverage.jobs_incomplete)" % (budget_s, res.open_prefixes, len(res.incomplete_jobs), len(cfgs)))
     if res.paths == 0 and rc == 0:
         status, rc = "harness-error", 3
         lines.append("HARNESS-ERROR: no path reached the assertion")
@@ -368,6 +376,7 @@ def main(modname):
             "forks": res.forks, "max_path_len": res.max_path_len, "cpu_s": round(res.cpu_s, 1),
             "numpy_calls_delegated_concretely": res.delegated,
             "canaries": canary_log,
+            "jobs_incomplete": [{k: v for k, v in cfgs[i].items() if not (k in ("graph", "base") and isinstance(v, list))} for i in res.incomplete_jobs],
             "per_job": [dict(cfg={k: v for k, v in cfgs[i].items() if not (k == "graph" and isinstance(v, list))}, **res.per_job.get(i, {})) for i in range(len(cfgs))],
             "known_findings_witnessed": sorted(kf_seen),
             "stubs": getattr(mod, "STUBS", []),
